@@ -230,3 +230,54 @@ def reaches_avoiding(fn, a, b, avoid=()):
         if through:
             st.extend(s for s in fn.succs(x) if s is not None)
     return False
+
+
+def loop_bodies(fn):
+    """header block -> set of blocks of its natural loop (union over its back edges)"""
+    cache = fn.__dict__.setdefault('_loop_bodies', None)
+    if cache is not None:
+        return cache
+    doms = fn.dominators()
+    preds = {}
+    for b in fn.blocks:
+        for s_ in fn.succs(b):
+            if s_ is not None:
+                preds.setdefault(s_, set()).add(b)
+    out = {}
+    for h in fn.blocks:
+        latches = [t for t in preds.get(h, ()) if h in doms.get(t, ())]
+        if not latches:
+            continue
+        body, st = {h}, list(latches)
+        while st:
+            x = st.pop()
+            if x in body:
+                continue
+            body.add(x)
+            st.extend(preds.get(x, ()))
+        out[h] = body
+    fn.__dict__['_loop_bodies'] = out
+    return out
+
+
+def loops_around(fn, block):
+    """headers of the (natural) loops whose body contains `block`, innermost first"""
+    lb = loop_bodies(fn)
+    hs = [h for h, body in lb.items() if block in body]
+    return sorted(hs, key=lambda h: len(lb[h]))
+
+
+def every_iteration_passes(fn, header, block):
+    """every way round the loop (header -> ... -> header) goes through `block`"""
+    if block == header:
+        return True
+    seen, st = set(), [s for s in fn.succs(header) if s is not None]
+    while st:
+        x = st.pop()
+        if x in seen or x == block:
+            continue
+        seen.add(x)
+        if x == header:
+            return False
+        st.extend(s for s in fn.succs(x) if s is not None)
+    return True
